@@ -59,7 +59,7 @@ var Check = &run.Check{
 }
 
 var opts = javagen.Opts{MinFiles: 1, MaxFiles: 6, MaxMethods: 6, MaxParams: 3, MaxFields: 4, Interfaces: true, Generics: true, Annotations: true, Ctors: true, Overloads: true,
-	Bodies: true, MaxStmts: 8, MaxSites: 25, Lambdas: true, MultiByte: true, HotBias: 6, FieldsFirst: true, CRLF: true}
+	Bodies: true, MaxStmts: 8, MaxSites: 25, Lambdas: true, MultiByte: true, HotBias: 6, FieldsFirst: true, CRLF: true, ExoticNames: true}
 
 var javaKeywords = map[string]bool{"do": true, "if": true, "for": true, "int": true, "new": true, "try": true, "var": true, "byte": true, "case": true, "char": true, "else": true, "enum": true, "goto": true, "long": true, "this": true, "void": true, "null": true, "true": true}
 
@@ -70,10 +70,14 @@ func newName(r *run.Rand, taken map[string]bool) string {
 			n = r.Range(1, 6)
 		}
 		var sb strings.Builder
+		exotic := r.Chance(1, 4) // non-ASCII letters and '$' are legal in Java identifiers
 		for i := 0; i < n; i++ {
-			if i == 0 {
+			switch {
+			case exotic && r.Chance(1, 4):
+				sb.WriteString(r.Pick([]string{"$", "ü", "é", "Ü", "名", "Ω", "я", "ß"}))
+			case i == 0:
 				sb.WriteByte(byte('a' + r.Intn(26)))
-			} else {
+			default:
 				sb.WriteByte("abcdefghijklmnopqrstuvwxyzABCDEFGHIJKLMNOPQRSTUVWXYZ0123456789_"[r.Intn(63)])
 			}
 		}
